@@ -185,6 +185,12 @@ M = [
   "                if index < nb_deltas {\n                    need_delta.push", "                if index <= nb_deltas {\n                    need_delta.push"),
  ("c03_palette_delta_vs_nb_colors", "C03", "predict-iff-index-below-nb_deltas", "crates/jxl-modular/src/transform/palette.rs",
   "                if index < nb_deltas {\n                    need_delta.push", "                if index < nb_colors {\n                    need_delta.push"),
+ ("c03_predictor_select_tie", "C03", "predict|formulas", "crates/jxl-modular/src/predictor.rs",
+  "                if n.abs_diff(nw) < w.abs_diff(nw) {", "                if n.abs_diff(nw) <= w.abs_diff(nw) {"),
+ ("c03_predictor_avgall_round", "C03", "predict|formulas", "crates/jxl-modular/src/predictor.rs",
+  "((6 * n - 2 * nn + 7 * w + ww + nee + 3 * ne + 8) / 16) as i32", "((6 * n - 2 * nn + 7 * w + ww + nee + 3 * ne + 8) >> 4) as i32"),
+ ("c03_predictor_avg_ne_uses_nw", "C03", "predict|formulas", "crates/jxl-modular/src/predictor.rs",
+  "                ((predictor.n as i64 + predictor.ne::<EDGE>() as i64) / 2) as i32", "                ((predictor.n as i64 + predictor.nw as i64) / 2) as i32"),
  ("c01_cluster_map_decoder_two_dists", "C01", "bound-lost", "crates/jxl-coding/src/lib.rs",
   "            Decoder::parse(bitstream, 1)?\n        };\n        decoder.begin(bitstream)?;", "            Decoder::parse(bitstream, num_dist.min(2))?\n        };\n        decoder.begin(bitstream)?;"),
 ]
